@@ -55,6 +55,16 @@ def build_case(cs, profile):
         kw.update(max_s=25, max_p=14, max_l=6, min_s=12, max_list=4)
         kw['shape'] = rng.choice(['dense', 'lowerq', 'tight_lecturer', 'no_ties', 'dense'])
     spec = sp.make_spec(rng, **kw)
+    if profile.get('big_quota'):
+        big = 99999999999999999
+        k = rng.randrange(spec['nl'])
+        spec['luq'][k] = big
+        spec['lt'][k] = rng.choice([big, big - 1, spec['lt'][k]])
+        for j in range(spec['np']):
+            if spec['plec'][j] == k + 1:
+                spec['puq'][j] = big
+        if spec['na'] == 2:
+            spec['lt'][k] = big      # hospitals: target = upper quota
     okw = dict(profile.get('opts', {}))
     ncrit_choices = okw.pop('ncrit_choices', None)
     if ncrit_choices:
